@@ -112,18 +112,19 @@ Definition doc_codes (c : hcfg) (txs : list htx) : list N :=
          | 1%N => [11%N] | 2%N => [12%N] | _ => [13%N]
          end) txs.
 
-Definition sat_at (P : hrec -> option hrec -> bool) (db : list hrec) (i : nat) : bool :=
-  match nth_error db i with Some r => P r (older_of db i) | None => false end.
+Definition sat_rel_at (c : hcfg) (q : query) (db : list hrec) (i : nat) : bool :=
+  match nth_error db i with Some r => rec_sat_rel c q r (older_of db i) | None => false end.
+Definition sat_at (c : hcfg) (q : query) (db : list hrec) (i : nat) : bool :=
+  match nth_error db i with Some r => rec_sat c q r | None => false end.
 
-(* the answer is right when Activated/Deactivated are read as "against the
-   previous stored record" but not by the field comments ("during the
-   transition"): the newest record on which the two readings part decides -
-   241/243 the oldest stored record (nothing to compare with: active resp.
-   inactive is enough), 242/244 a record whose predecessor in the store is not
-   the transition before it (unrecorded transitions in between) *)
-Definition doc_gap_codes (c : hcfg) (db : list hrec) (q : query) : list N :=
-  match filter (fun i => negb (Bool.eqb (sat_at (fun r _ => rec_sat c q r) db i)
-                                        (sat_at (rec_sat_rel c q) db i)))
+(* a relapse to the reading FindLatest had before 3ac5b4b: the answer is what
+   "Activated/Deactivated against the previous stored record" gives, and not
+   what the query means.  The newest record on which the two readings part
+   decides: 241/243 the oldest stored record (nothing to compare with: active
+   resp. inactive was enough), 242/244 a record whose predecessor in the store
+   is not the transition before it (unrecorded transitions in between) *)
+Definition relapse_codes (c : hcfg) (db : list hrec) (q : query) : list N :=
+  match filter (fun i => negb (Bool.eqb (sat_at c q db i) (sat_rel_at c q db i)))
                (positions_desc (length db)) with
   | [] => [249%N]
   | i :: _ =>
@@ -149,12 +150,12 @@ Definition query_codes (c : hcfg) (db : list hrec) (o : qobs) : list N :=
     else if negb (newest_first_ok db (qo_limit o) l) then [210%N]
     else if negb (mtime_wf q) then []
     else if list_nat_eqb l (find_latest_spec c db (qo_limit o) q) then []
-    else if list_nat_eqb l (find_latest_spec_rel c db (qo_limit o) q) then doc_gap_codes c db q
+    else if list_nat_eqb l (find_latest_spec_rel c db (qo_limit o) q) then relapse_codes c db q
     else
-      match filter (fun i => negb (sat_at (rec_sat_rel c q) db i)) l with
+      match filter (fun i => negb (sat_at c q db i)) l with
       | i :: _ =>
         match nth_error db i with
-        | Some r => [(200 + failing_clause c q r (older_of db i))%N]
+        | Some r => [(200 + failing_clause c q r)%N]
         | None => [210%N]
         end
       | [] => [208%N]
